@@ -189,6 +189,8 @@ class Repo:
         self.inlined_helpers = set()
         self.residual = {}       # qualified name of a known function -> new helpers it still calls after inlining
         self.specialised = []
+        self.properties_inlined = self._inline_new_properties()
+        self._integer_attributes()
         self.keyword_calls_normalised = self._positional_calls()
         if os.environ.get("VERIF_NO_INLINE") != "1":
             self._specialise_dispatch()
@@ -279,6 +281,117 @@ class Repo:
                 fi = FuncInfo(n, prefix + n.name, rel, cls=cls, parent=parent)
                 self.funcs.setdefault(fi.qual, []).append(fi)
                 self._index_nested(n, rel, prefix + n.name + ".", cls, fi)
+
+    def _integer_attributes(self):
+        """attribute names whose every store in the package is an integer literal, `+= <integer literal>`, a len() or a value read back
+        from a serialisation dictionary: they hold integers only (flow.INT_ATTRS; int(x.attr) is x.attr)"""
+        from . import flow as _flow
+        ok, bad = set(), set()
+        for tree in self.trees.values():
+            for x in ast.walk(tree):
+                if isinstance(x, ast.Assign):
+                    for t in x.targets:
+                        if isinstance(t, ast.Attribute):
+                            v = x.value
+                            good = (isinstance(v, ast.Constant) and isinstance(v.value, int) and not isinstance(v.value, bool)) \
+                                or (isinstance(v, ast.Call) and isinstance(v.func, ast.Name) and v.func.id in ("len", "int")) \
+                                or (isinstance(v, ast.Subscript) and isinstance(v.value, ast.Name) and v.value.id in ("attribute_dict", "in_dict"))
+                            (ok if good else bad).add(t.attr)
+                        elif isinstance(t, (ast.Tuple, ast.List)):
+                            for y in ast.walk(t):
+                                if isinstance(y, ast.Attribute) and isinstance(y.ctx, ast.Store):
+                                    bad.add(y.attr)
+                elif isinstance(x, ast.AugAssign) and isinstance(x.target, ast.Attribute):
+                    good = isinstance(x.op, (ast.Add, ast.Sub)) and isinstance(x.value, ast.Constant) and isinstance(x.value.value, int) and not isinstance(x.value.value, bool)
+                    (ok if good else bad).add(x.target.attr)
+                elif isinstance(x, (ast.AnnAssign,)) and isinstance(x.target, ast.Attribute) and x.value is not None:
+                    bad.add(x.target.attr)
+                elif isinstance(x, ast.Call) and isinstance(x.func, ast.Name) and x.func.id == "setattr" and len(x.args) == 3:
+                    if isinstance(x.args[1], ast.Constant) and isinstance(x.args[1].value, str):
+                        bad.add(x.args[1].value)
+        ints = ok - bad
+        # a read-only property that returns such an attribute holds integers as well
+        for lst in self.funcs.values():
+            for fi in lst:
+                if fi.cls is not None and fi.is_property():
+                    body = [b for b in fi.node.body if not (isinstance(b, ast.Expr) and isinstance(b.value, ast.Constant))]
+                    if len(body) == 1 and isinstance(body[0], ast.Return) and isinstance(body[0].value, ast.Attribute) and body[0].value.attr in ints:
+                        ints = ints | {fi.name}
+        _flow.INT_ATTRS = set(ints)
+        self.integer_attributes = sorted(ints)
+
+    def _inline_new_properties(self):
+        """A read-only property that did not exist on the pinned tree and whose body is a single `return <expression over self>` is a
+        named expression (`evse.occupied` for `evse._ev is not None`): its reads are replaced by that expression, as calls of new helper
+        functions are.  Only when the name is unique in the package (no other class defines it, nothing stores an attribute of that name)."""
+        import copy as _c
+        from .inline import load_known
+        known = load_known()
+        if known is None:
+            return 0
+        stored, defined = set(), {}
+        for tree in self.trees.values():
+            for x in ast.walk(tree):
+                if isinstance(x, ast.Attribute) and isinstance(x.ctx, (ast.Store, ast.Del)):
+                    stored.add(x.attr)
+        for lst in self.classes.values():
+            for ci in lst:
+                for nm in list(ci.methods) + list(ci.setters) + list(ci.assigns):
+                    defined.setdefault(nm, []).append(ci)
+        table = {}
+        for q, lst in self.funcs.items():
+            for fi in lst:
+                if fi.cls is None or fi.parent is not None or not fi.is_property() or fi.qual in known or fi.name in stored or len(defined.get(fi.name, [])) != 1 \
+                        or fi.name in fi.cls.setters:
+                    continue
+                body = list(fi.node.body)
+                if body and isinstance(body[0], ast.Expr) and isinstance(body[0].value, ast.Constant) and isinstance(body[0].value.value, str):
+                    body = body[1:]
+                if len(body) != 1 or not isinstance(body[0], ast.Return) or body[0].value is None or len(fi.params) != 1:
+                    continue
+                e = body[0].value
+                if any(isinstance(x, (ast.Lambda, ast.Yield, ast.YieldFrom, ast.Await, ast.NamedExpr)) for x in ast.walk(e)):
+                    continue
+                names = {x.id for x in ast.walk(e) if isinstance(x, ast.Name)}
+                if not names <= {fi.params[0]} | set(dir(__import__("builtins"))) | {"np", "pd"}:
+                    continue
+                table[fi.name] = (fi, e, fi.params[0])
+        if not table:
+            return 0
+        count = [0]
+
+        def pure(r):
+            return isinstance(r, ast.Name) or (isinstance(r, ast.Attribute) and pure(r.value)) or (isinstance(r, ast.Subscript) and pure(r.value) and
+                                                                                                    isinstance(r.slice, (ast.Name, ast.Constant, ast.Attribute)))
+
+        class P(ast.NodeTransformer):
+            def __init__(self):
+                self.inside = None
+
+            def visit_FunctionDef(self, n):
+                old, self.inside = self.inside, n
+                try:
+                    return self.generic_visit(n)
+                finally:
+                    self.inside = old
+
+            def visit_Attribute(self, n):
+                n = self.generic_visit(n)
+                if isinstance(n.ctx, ast.Load) and n.attr in table:
+                    fi, e, selfname = table[n.attr]
+                    if self.inside is fi.node or not pure(n.value):
+                        return n
+                    recv = n.value
+
+                    class S(ast.NodeTransformer):
+                        def visit_Name(self, x):
+                            return _c.deepcopy(recv) if x.id == selfname and isinstance(x.ctx, ast.Load) else x
+                    count[0] += 1
+                    return ast.fix_missing_locations(ast.copy_location(S().visit(_c.deepcopy(e)), n))
+                return n
+        for rel in self.trees:
+            P().visit(self.trees[rel])
+        return count[0]
 
     def _positional_calls(self):
         """Load-time normal form: `f(a, y=b)` and `f(a, b)` bind the same parameters - a call to a function / method / constructor of
